@@ -9,6 +9,7 @@ import (
 	"io"
 	"net"
 	"sync"
+	"sync/atomic"
 	"time"
 	"verif/harness/lab/procnet"
 )
@@ -21,7 +22,11 @@ type Conn struct {
 	eof    bool
 	eofErr error
 	At     time.Time
+	paused atomic.Bool
 }
+
+// Pause makes the host stop (or resume) reading from the connection: TCP back-pressure builds up towards the gateway.
+func (c *Conn) Pause(p bool) { c.paused.Store(p) }
 
 func (c *Conn) Received() []byte {
 	c.mu.Lock()
@@ -126,6 +131,9 @@ func (l *Listener) pull() {
 		go func() {
 			buf := make([]byte, 65536)
 			for {
+				for bc.paused.Load() {
+					time.Sleep(time.Millisecond)
+				}
 				n, err := c.Read(buf)
 				bc.mu.Lock()
 				if n > 0 {
